@@ -582,6 +582,74 @@ func c06ShutdownScript(w *fw.Worker, i int, r *fw.Rand, zeroTok bool, backlog in
 	w.Count("scripted_schedules_run", 1)
 }
 
+// c06RegisterShutdownScript: a registration with a stale token is queued behind a backlog while a callback is parked;
+// every source then calls Done and the monitor exits before the registration is dequeued. RegisterCallback accepted
+// it, newer versions had been announced: the catch-up call is still owed when the callback goroutine drains the queue.
+func c06RegisterShutdownScript(w *fw.Worker, i int, r *fw.Rand, backlog int) {
+	s, err := c06New(w, i, r, 2, 0)
+	if err != nil {
+		w.Violation(i, "config-failed", err.Error(), nil)
+		return
+	}
+	e := s.e
+	defer e.Stop()
+	defer s.gates.ReleaseAll()
+	ctx := e.S.Ctx
+	s.initial = e.D.View()
+	desc := map[string]any{"script": "stale-registration-vs-shutdown", "backlog": backlog}
+	e.Report(ctx, 0, 0, s.validLayer(r), true)
+	if !s.wd(s.settle(), "fence") {
+		return
+	}
+	cfg, tok := e.D.ViewVersion() // goes stale below
+	e.CBGate = make(chan struct{})
+	e.Report(ctx, 0, 0, s.validLayer(r), true)
+	if !s.wd(conc.WaitUntil(func() bool { return e.InCB() > 0 }, c06Watchdog), "callback goroutine never parked") {
+		close(e.CBGate)
+		return
+	}
+	for k := 0; k < backlog; k++ {
+		e.Report(ctx, 0, k%2, s.validLayer(r), true)
+	}
+	e.SendSentinel(ctx) // the last install has been announced (queued) before the registration is queued
+	unreg := s.register(2, cfg, tok)
+	if unreg == nil {
+		w.Violation(i, "register-returned-nil", "RegisterCallback returned nil with a live context and a running monitor", desc)
+		close(e.CBGate)
+		return
+	}
+	for _, src := range e.Srcs {
+		src.WA().Done(ctx)
+	}
+	select {
+	case <-dials.VerifMonitorDone(e.D):
+	case <-time.After(c06Watchdog):
+		w.Inconclusive(i, "watchdog: monitor did not exit after every source called Done")
+		close(e.CBGate)
+		return
+	}
+	close(e.CBGate)
+	if !s.wd(conc.WaitUntil(func() bool { return s.tr.Exited() }, c06Watchdog), "callback goroutine did not exit") {
+		return
+	}
+	// the registration was accepted and queued long before the shutdown: the callback goroutine must have processed it
+	processed := false
+	for _, d := range s.tr.Dequeued() {
+		if d.Kind == "register" && s.tr.HandleID(d.Handle) == 2 {
+			processed = true
+		}
+	}
+	if !processed {
+		w.Violation(i, "accepted-registration-never-processed", "RegisterCallback returned an unregister function while the monitor was running, the callback goroutine has exited, and the registration (stale token: a catch-up call was owed) was never dequeued", desc)
+		return
+	}
+	if sig := s.judge(desc); sig != "" {
+		w.Distinct(fmt.Sprintf("regshutdownscript|%d|%s", backlog, sig))
+	}
+	w.Count("scripted_schedules_run", 1)
+	w.Count("stale_registrations_queued_before_shutdown", 1)
+}
+
 // c06OverflowScript: the 64-slot queue is full behind a parked callback and
 // then error events arrive (source errors, rejected updates). The documented
 // behaviour is to drop them; whatever is done instead, callbacks must still
@@ -808,6 +876,7 @@ func runC06(w *fw.Worker) {
 	nUnreg := len(list) + 8
 	nShutdown := nUnreg + 6
 	nScripted := nShutdown + 2
+	nRegShutdown := nScripted + 12 // the mutated select is a coin flip: the schedule is repeated
 	w.Cases(func(i int, r *fw.Rand) {
 		g := i*w.Shards + w.Shard // global index
 		switch {
@@ -825,6 +894,8 @@ func runC06(w *fw.Worker) {
 			c06ShutdownScript(w, i, r, k&1 == 1, 1+k/2)
 		case g < nScripted:
 			c06OverflowScript(w, i, r)
+		case g < nRegShutdown:
+			c06RegisterShutdownScript(w, i, r, 1+(g-nScripted)%4)
 		default:
 			c06Stress(w, i, r)
 		}
